@@ -162,6 +162,16 @@ def c08_2(c: Ctx) -> None:
             if u.key == allowed_pending_guard.key:
                 c.ok(where(u, call), 'terminal update of a result tested to be pending (C08.1)')
                 continue
+            if call_name(call) == 'update':
+                # anywhere else: only on a result record tested to be still pending at that point (it has not started: no handler protocol is running on it)
+                recv_ = U(call.func.value)
+                atom_ = eq_atom(f'{recv_}.status', "'pending'")
+                gq = c.cfg(u)
+                fq = Facts(lambda a: a == atom_, cg=c.cg, unit=u)
+                nodes_ = gq.nodes_of(q.stmt_of(call))
+                if nodes_ and all(q.guard_search(gq, n_, f"{recv_}.status == 'pending'", fq) is None for n_ in nodes_):
+                    c.ok(where(u, call), f'terminal update in {u.qualname} only of a result tested to be pending')
+                    continue
             c.fail(u, f'terminal result update outside execute_handler: {U(call)[:80]}', f'a handler result is finalised from {u.qualname}, outside the one-terminal-update protocol of execute_handler', node=call)
     c.floor(n_sites, 7, 'result update call sites')
     # the result map and the child lists only grow: entries are created once (get-or-create) and never deleted / replaced
